@@ -14,8 +14,25 @@ def run(ctx):
     rnd = tc.random_programs(rng, kinds, 60000 if th else 6000, [1, 1, 2, 3, 4], maxcalls=10)
     programs = progs + rnd
     ctx.samples = tc.sample(progs, 1) + tc.sample(rnd, 2)
-    ctx.distinct = tc.distinct(programs)
+    # stand-alone structures (every sub-structure on its own, GAS, HEST generic error data entry)
+    md = schema.option_menu()
+    subs = schema.ctor_variants()
+    src = schema.Rand(rng)
+    for st in md:
+        for _ in range(100 if th else 15):
+            subs.append(schema.random_sub(rng, md, st, rng.choice([0, 1, 3, 8])))
+    for _ in range(300 if th else 40):
+        subs.append({"fam": "sub", "st": "gas", "a": schema.gen(src, "gas"), "calls": []})
+        subs.append({"fam": "sub", "st": "gedata", "every_prefix": False, "calls": [],
+                     "a": {"section_type": src.scalar(2), "severity": src.choice(["Recoverable", "Fatal", "Correctable", "None"]),
+                           "revision": src.scalar(2), "validation": src.scalar(1), "flags": src.scalar(1),
+                           "error_data_length": src.scalar(4), "fru_id": src.raw(16), "fru_text": src.raw(20),
+                           "timestamp": src.raw(8), "data": [65 + src.below(26) for _ in range(src.choice([0, 4, 12]))]}})
+    for s in subs:
+        s["every_prefix"] = False
+    ctx.distinct = tc.distinct(programs + subs)
     tc.judge(ctx, programs, "c04")
+    vlib.run_and_judge(ctx, subs, "Trace_Sub.cfg", "Trace_Sub.tla", "c04s")
     return vlib.finish(ctx, rule="builder programs over all 21 table kinds and all entry types: MC_Tables histories with "
                        "field-identifying argument patterns + seeded random programs whose scalars are biased to boundaries, "
                        "single-bit and byte-fill patterns; predicate: observed image = TblImage of Layouts/Tables.tla byte for "
